@@ -168,3 +168,13 @@ def shrink(case):
                 c = dict(case)
                 c['ckw'] = dict(case['ckw'], npts=n2)
                 yield c
+
+
+_gen_plain = gen
+
+
+def gen(rng, tier, idx):
+    case = _gen_plain(rng, tier, idx)
+    if True:
+        cm.maybe_bystanders(rng, case['sched'], case['P'])
+    return case
